@@ -46,7 +46,7 @@ ASSUMES = [
     "screen-column width of a content row is computed by vmon.models.grid (wcwidth tables for utf8; bytes for euc-jp / ascii), independent of urwid.str_util",
     "for inner widgets rows()/pack() are evaluated by the monitor right after render (before the canvas is cached); for the root they are evaluated before render with the cache cleared",
     "a failure inside a widget that a bundled class builds internally (Button's Columns, LineBox's Pile, GridFlow's Pile ...) is attributed to that bundled class (taken from the structure of the tree)",
-    "signature = C01|blamed class|failure kind + raise site, or violated clause (the size class of the size the blamed widget was handed -- fixed / tiny: a dimension <= 3 / ordinary -- is reported in the message only); an exception raised by a widget that had itself been handed a size outside the domain is grouped as the blamed parent's 'hands-child:size<1' or 'hands-child:mode-not-reported', whatever the child raised",
+    "signature = C01|blamed class|failure kind + raise site, or violated clause -- or C01|blamed class|tiny-size|failure family when the blamed widget was handed a size with a dimension <= 3 (the size class of the size the blamed widget was handed -- fixed / tiny: a dimension <= 3 / ordinary -- is reported in the message only); an exception raised by a widget that had itself been handed a size outside the domain is grouped as the blamed parent's 'hands-child:size<1' or 'hands-child:mode-not-reported', whatever the child raised",
     "every evaluation uses a freshly built tree and a cleared CanvasCache: state left behind by earlier renders is the business of C06/C07/C20, not of this check",
     "weights are positive; given sizes are >= 1; empty Pile / Columns / GridFlow / ListBox are included (documented special case)",
 ]
@@ -486,7 +486,15 @@ def signature(env, recipe, f, sclass=None):
     raised), so it does not depend on how far the witness was shrunk.  The size class of the size the blamed widget was
     handed (fixed / tiny: a dimension <= 3 / ordinary) is reported in the message, not in the signature: with it every
     mechanism needed two or three lines and held-out seeds kept surfacing the missing variant."""
-    return f"C01|{f.cls}|{mech_kind(f)}"
+    kind = mech_kind(f)
+    if getattr(f, "bucket", None) == "tiny":
+        # Failures that occur when the blamed widget itself is handed a size with a dimension <= 3 are grouped per
+        # (class, failure family): the bundled widgets have a long tail of distinct small defects at 1-3 columns /
+        # rows, and every new seed used to surface a few never-seen (class, raise site) pairs there.  At ordinary
+        # sizes the signature keeps the exact raise site / clause.
+        family = kind.split("/")[0].split("@")[0]
+        return f"C01|{f.cls}|tiny-size|{family}"
+    return f"C01|{f.cls}|{kind}"
 
 
 def prekey(env, recipe, f):
